@@ -190,3 +190,18 @@ add("C05",
     rule="see evidence",
     require_counts=["verdict:detected", "verdict:harmless", "detected:flip/pack/blob-ciphertext", "detected:flip/pack/pack-header", "detected:flip/pack/trailer", "detected:flip/index/ciphertext", "detected:flip/snapshot/ciphertext", "detected:index-drop-blob/index"],
     )
+
+add("C04",
+    engine="TAMPER",
+    level="fault_enumeration",
+    technique="exhaustive single-fault enumeration over every stored file judged by every typed read path, plus explicit-state BFS with raw-byte invariants (nonce freshness, no plaintext) and exhaustive credential histories",
+    design_ref="DESIGN.md §4.4, §4.1, §5 C04",
+    level_text="(c) Two repositories (multi-blob packs; one-blob packs whose blobs have equal sizes, so that packs share their layout) x every stored file incl. config and key x {remove, truncate, flip, append, replace by each sibling of the same type, "
+               "same plaintext under another key, index entry edits}: reading every snapshot and index file by id, every blob through the index and every whole snapshot must fail or return the original content. "
+               "(a)+(b) In every state of a BFS (depth 3 quick / 5 thorough) over {backup, prune with fast and re-encoding repack, forget, copy into a repository with another key, compression change} with the real RNG, the nonces of all files, pack headers and blobs "
+               "are pairwise distinct and non-zero unless the whole ciphertext is a verbatim copy, and no stored file other than keys contains a file/dir name, label, host, tag, JSON key literal or any 8-byte window of file content. "
+               "(d) Every key add/delete/open history up to length 2 (quick) / 3 (thorough): a password opens iff one of the present key files was made with it, the master key always opens, a wrong password or another master key never.",
+    level_note="Semantic security (IND-CPA, unforgeability, RNG quality) is outside any bounded enumeration: only literal substrings and nonce collisions are decided. scrypt runs with its real cost.",
+    shards={"quick": 16, "thorough": 16},
+    require_counts=["nonces_checked", "plaintext_windows_checked", "tamper_cases", "credential_histories", "held:swap/pack", "held:other-key/snapshot", "held:flip/pack/blob-mac", "held:flip/config/mac"],
+    )
